@@ -31,18 +31,19 @@ type AbsReq struct {
 
 // Stim is one environment choice applied while the loop is parked.
 type Stim struct {
-	Op    string   `json:"op"`
-	C     string   `json:"c"`
-	N     string   `json:"n"`
-	Reqs  []AbsReq `json:"reqs"`
-	Hex   string   `json:"hex"`
-	Kind  string   `json:"kind"`
-	Cls   string   `json:"cls"`
-	To    string   `json:"to"`
-	Count int      `json:"count"`
-	Src   string   `json:"src"`  // source address for "open"
-	Text  string   `json:"text"` // free text (topology description name, file content ...)
-	Cuts  []int    `json:"cuts"` // for "send": byte offsets at which the write is cut; every chunk but the last gets its own iteration
+	Op    string     `json:"op"`
+	C     string     `json:"c"`
+	N     string     `json:"n"`
+	Reqs  []AbsReq   `json:"reqs"`
+	Hex   string     `json:"hex"`
+	Kind  string     `json:"kind"`
+	Cls   string     `json:"cls"`
+	To    string     `json:"to"`
+	Count int        `json:"count"`
+	Src   string     `json:"src"`  // source address for "open"
+	Text  string     `json:"text"` // free text (topology description name, file content ...)
+	Desc  []NodeDesc `json:"desc"` // for "topo": the description the nodes publish from now on
+	Cuts  []int      `json:"cuts"` // for "send": byte offsets at which the write is cut; every chunk but the last gets its own iteration
 }
 
 type Step struct {
@@ -109,31 +110,59 @@ type SeenRec struct {
 	Node string `json:"node"` // for k = "s": the node the connection belongs to
 }
 
+// NodeDesc is the abstract content of one line of a CLUSTER NODES description (what the TLA+ Topology module
+// reasons about); the fake nodes render the text from it.
+type NodeDesc struct {
+	Name      string   `json:"name"`
+	Role      string   `json:"role"`     // master | slave | none (neither flag present)
+	MasterOf  string   `json:"masterOf"` // for slaves: name of the master
+	Ranges    [][2]int `json:"ranges"`
+	Fail      bool     `json:"fail"`      // flags contain fail / fail?
+	Handshake bool     `json:"handshake"` // flags contain handshake
+	NoAddr    bool     `json:"noaddr"`    // flags contain noaddr
+	LinkOK    bool     `json:"linkOK"`    // link-state connected
+	Loading   bool     `json:"loading"`   // INFO loading:1
+	MLinkDown bool     `json:"mlinkDown"` // INFO master_link_status:down
+	Short     bool     `json:"short"`     // the line has fewer than 8 columns
+	Migrating bool     `json:"migrating"` // an extra [slot->-node] marker column
+}
+
+// TableRange is a run of slots of the proxy's routing table with the same owner.
+type TableRange struct {
+	Lo     int      `json:"lo"`
+	Hi     int      `json:"hi"`
+	Master string   `json:"master"`
+	Slaves []string `json:"slaves"`
+}
+
 // Event is one line of the recorded trace. Every field is always present so that the TLA+ side
 // can access any of them on any line.
 type Event struct {
-	Tid   int       `json:"tid"`
-	Ev    string    `json:"ev"`
-	C     string    `json:"c"`
-	I     int       `json:"i"`
-	N     string    `json:"n"`
-	Conn  string    `json:"conn"`
-	K     string    `json:"k"`
-	Slots []string  `json:"slots"`
-	Dups  []int     `json:"dups"`
-	Toks  []Tok     `json:"toks"`
-	Rep   AbsRep    `json:"rep"`
-	Fid   string    `json:"fid"`
-	Kind  string    `json:"kind"`
-	Cls   string    `json:"cls"`
-	To    string    `json:"to"`
-	Seen  []SeenRec `json:"seen"`
-	Snap  Snap      `json:"snap"`
-	Raw   string    `json:"raw"`
-	Bytes []int     `json:"bytes"`
-	Txt   string    `json:"txt"`
-	Num   int       `json:"num"`
-	Size  int       `json:"size"`
+	Tid   int          `json:"tid"`
+	Ev    string       `json:"ev"`
+	C     string       `json:"c"`
+	I     int          `json:"i"`
+	N     string       `json:"n"`
+	Conn  string       `json:"conn"`
+	K     string       `json:"k"`
+	Slots []string     `json:"slots"`
+	Dups  []int        `json:"dups"`
+	Toks  []Tok        `json:"toks"`
+	Rep   AbsRep       `json:"rep"`
+	Fid   string       `json:"fid"`
+	Kind  string       `json:"kind"`
+	Cls   string       `json:"cls"`
+	To    string       `json:"to"`
+	Seen  []SeenRec    `json:"seen"`
+	Snap  Snap         `json:"snap"`
+	Raw   string       `json:"raw"`
+	Bytes []int        `json:"bytes"`
+	Txt   string       `json:"txt"`
+	Num   int          `json:"num"`
+	Size  int          `json:"size"`
+	Nums  []int        `json:"nums"`  // slot numbers of the keys (send)
+	Desc  []NodeDesc   `json:"desc"`  // topo
+	Table []TableRange `json:"table"` // refreshed
 }
 
 // IntBytes renders bytes as a JSON-friendly int slice (the TLA+ side works on sequences of integers).
@@ -157,6 +186,25 @@ func (e *Event) norm() {
 	}
 	if e.Bytes == nil {
 		e.Bytes = []int{}
+	}
+	if e.Nums == nil {
+		e.Nums = []int{}
+	}
+	if e.Desc == nil {
+		e.Desc = []NodeDesc{}
+	}
+	for i := range e.Desc {
+		if e.Desc[i].Ranges == nil {
+			e.Desc[i].Ranges = [][2]int{}
+		}
+	}
+	if e.Table == nil {
+		e.Table = []TableRange{}
+	}
+	for i := range e.Table {
+		if e.Table[i].Slaves == nil {
+			e.Table[i].Slaves = []string{}
+		}
 	}
 	for len(e.Dups) < len(e.Slots) {
 		e.Dups = append(e.Dups, -1)
